@@ -168,6 +168,40 @@ def one(ctx, pf, cfg, body, bclass):
             ctx.violate("invocations:%s:%s:%s" % (suffix, cfg[1], "pooled" if fx.pool else "inline"), case, detail)
 
 
+def tuple_twins(ctx, rng, pf, cfg):
+    """A notification whose positional arguments reach the dispatcher as a tuple ('builtins.tuple' descriptor as
+    "params"; the request validation accepts lists and tuples alike) runs exactly like its list twin: once, unanswered."""
+    fx = pf.fx
+    for shape in SHAPES:
+        for m, args in (("echo", [1, "a"]), ("const0", []), ("pub", [None]), ("fail", []), ("two", [1, 2])):
+            e = notification(rng, "returns", shape, cfg[1])
+            e["method"] = m
+            runs = {}
+            for form in ("list", "tuple"):
+                body = json.dumps(dict(e, params=args if form == "list" else {"__jsonclass__": ["builtins.tuple", [args]]}))
+                mark0 = fx.log.mark()
+                obs = dm.drive(fx, body)
+                if fx.pool is not None:
+                    drain(fx, mark0, 1)
+                raw = fx.log.since(mark0)
+                runs[form] = (obs.raised, obs.output, dm.inv_repr(raw), body)
+                if form == "list":
+                    # what the list twin ran is what each of the two must run
+                    pf.expected_total.extend(list(raw) * 2)
+            case = {"config": [cfg[0], cfg[1], list(cfg[2]) if cfg[2] else None], "body": runs["tuple"][3],
+                    "bclass": "tuple-twin"}
+            ctx.case((repr(cfg), runs["tuple"][3]), nontrivial=True)
+            ctx.count("judged:tuple-params-notification-twins")
+            if runs["tuple"][0] is not None:
+                ctx.violate("tuple-twin:raised-%s" % type(runs["tuple"][0]).__name__, case, {"raised": runs["tuple"][0]})
+            elif runs["tuple"][1] not in ("", None):
+                ctx.violate("answered-notification:params-given-as-a-tuple:%s" % cfg[1], case, {"output": runs["tuple"][1]})
+            elif runs["tuple"][2] != runs["list"][2]:
+                ctx.violate("invocations:notification-with-params-given-as-a-tuple-ran-%d-time(s):%s:%s"
+                            % (len(runs["tuple"][2]), cfg[1], "pooled" if fx.pool else "inline"), case,
+                            {"with_tuple": runs["tuple"][2], "with_list": runs["list"][2]})
+
+
 def client_side(ctx, rng):
     import jsonrpclib
     for v in (2.0, 1.0):
@@ -251,6 +285,8 @@ def run(ctx):
                 batch = [reqgen.entry_of("call", rng) for _ in range(3)]
                 batch.insert(pos, notification(rng, outcome, rng.choice(SHAPES), cfg[1]))
                 one(ctx, pf, cfg, json.dumps(batch), "position")
+        if cfg[1] == "default":
+            tuple_twins(ctx, rng, pf, cfg)
         pf.close(ctx, cfg)
     # stall sweep over the pool's enqueue / worker loop while notifications flow
     # points = the pool-module lines the worker threads and the dispatching thread were seen executing above
